@@ -300,10 +300,12 @@ def gen_cases(ctx):
                         {"kind": "garbage"}, {"kind": "none"}, {"kind": "raw"}])
         if prior["kind"] in ("archive", "truncated", "flipped") and fmt_of(nm) not in ADVERTISED:
             prior = {"kind": "raw"}
-        cf = rng.choice([None, None] + compress_faults(f, ntok)) if comp else None
-        if cf and cf["kind"] == "open_out" and cf.get("variant") == "natural":
-            cf = None
         fmtarg = rng.choice([None, None, None, f, rng.choice(ADVERTISED)]) if comp else None
+        # the injection points are those of the format compress will really use
+        cf = rng.choice([None, None] + compress_faults(fmtarg or fmt_of(nm), ntok)) if comp else None
+        if cf and cf.get("variant") == "natural" and cf["kind"] in ("open_out", "open_in") \
+                and (cf["kind"] == "open_out" or (fmtarg or fmt_of(nm)) not in ADVERTISED):
+            cf = None
         dec = (not comp) or rng.random() < 0.6
         pl = CONTENT[content][0] if comp else [101, 102]
         df = rng.choice([None, None] + decompress_faults(pl)) if dec else None
@@ -317,7 +319,7 @@ def gen_cases(ctx):
 
 # ----------------------------------------------------------------------------- Coq literals
 
-def cf_lit(cf, fired):
+def cf_lit(cf, fired, fmt_eff="gz"):
     k = cf["kind"]
     if k == "none" or not fired:
         return "CNone"
@@ -330,7 +332,7 @@ def cf_lit(cf, fired):
     if k == "open_out":
         return "COpenOut"
     if k == "wrap":
-        return "CWrap"
+        return "CWrap" if fmt_eff == "gz" else "COpenOut"   # a constructor that raises before creating the file
     if k == "copy":
         return f"(CCopy {int(cf['j'])}%nat)"
     if k == "close":
@@ -360,6 +362,8 @@ def prior_lit(case, res):
     cls = res.get("prior_class", p["kind"])
     if cls == "none":
         return "NoFile"
+    if p["kind"] == "empty":
+        return "(RawFile [])"            # a zero-length file (gzip reads it as an empty stream, the others refuse it)
     if cls == "raw":
         return f"(RawFile {zlist(p['tokens'])})"
     if cls == "archive":
@@ -395,7 +399,7 @@ def case_expr(case, res):
     cfired = res.get("comp", {}).get("fired", False)
     dfired = res.get("dec", {}).get("fired", False)
     c = (f"(mkCase {pl} {qs(case['name'])} {core.coq_bool(case['comp'])} {opt_s(case['fmtarg'])} "
-         f"{zlist(case['b'])} {cf_lit(case['cf'], cfired)} {core.coq_bool(case['dec'])} {opt_s(case['target'])} "
+         f"{zlist(case['b'])} {cf_lit(case['cf'], cfired, case['fmt_eff'])} {core.coq_bool(case['dec'])} {opt_s(case['target'])} "
          f"{df_lit(case['df'], dfired)})")
     ic = obs_lit(obs_comp(res["comp"]) if case["comp"] else None)
     idd = obs_lit(obs_dec(res["dec"]) if case["dec"] else None)
@@ -480,7 +484,7 @@ def check_cases(ctx, cases, table_runtime_check=None):
         if v is None:
             ctx.fail("correspondence", "Coq evaluation of the model failed", case=c, signature="coq-eval")
             continue
-        mcv, mcd, mdv, mdd, viol = v
+        mcv, mcd, mdv, mdd, viol, mviol = v
         mcd, mdd = unopt(mcd), unopt(mdd)
         fmt = c["fmt_eff"] if c["comp"] else c["fmt_name"]
         descr = (f"name={c['name']!r} fmt={c['fmtarg']!r} content={c['content']} prior={c['prior']['kind']} "
@@ -491,12 +495,16 @@ def check_cases(ctx, cases, table_runtime_check=None):
                      case=c, impl={"comp": r.get("comp"), "dec": r.get("dec")},
                      model={"comp": [mcv, mcd], "dec": [mdv, mdd]},
                      signature=f"clause{n}-{fmt if fmt in ADVERTISED else 'passthrough'}")
-        if not viol:
+        natural_pt = (c["comp"] and c["cf"]["kind"] in ("open_out", "open_in") and c["cf"].get("variant") == "natural"
+                      and r["comp"]["yielded"] == 1)
+        if mviol and sorted(table or []) == sorted(ADVERTISED):
+            ctx.fail("proof", f"the model's own observations are rejected by the clause checker (clauses {mviol}): {descr}",
+                     case=c, model={"comp": [mcv, mcd], "dec": [mdv, mdd]}, signature="model-vs-spec")
+        if not viol and not natural_pt:
             diffs = []
             if c["comp"]:
                 iv, idc = obs_comp(r["comp"])
-                natural = c["cf"]["kind"] in ("open_out", "open_in") and c["cf"].get("variant") == "natural"
-                if not (natural and iv[1] == 1):      # natural faults need the temporary file; not when passed through
+                if True:
                     if iv != mcv or canon(idc) != canon(mcd):
                         diffs.append(f"compress: implementation {iv, idc} model {mcv, mcd}")
                     if fmt == "zip" and fmt_of(c["name"]) == "zip" and r["comp"]["decoded"] is not None \
